@@ -54,7 +54,7 @@ func enumerateFragment(p *core.Program, frag *ssa.Function, payloadLen int64, mu
 	pe := &core.PathEnum{Fn: frag, Bind: map[ssa.Value]int64{lenVal: payloadLen}, MaxUnknownVisits: 2, MaxPaths: 3000}
 	pe.EvalCall = func(c *ssa.Call, st *core.PathState) (int64, bool) {
 		if core.NameIs(core.CalleeName(c), bp7+".BundleControlFlags.Has") {
-			if k, ok := core.ConstInt(core.CallArgs(c)[0]); ok && k == mnf && pathEndsWith(core.CallRecv(c), "PrimaryBlock", "BundleControlFlags") {
+			if k, ok := core.ConstInt(core.Arg(c, 0)); ok && k == mnf && pathEndsWith(core.CallRecv(c), "PrimaryBlock", "BundleControlFlags") {
 				return mustNot, true
 			}
 		}
@@ -226,7 +226,7 @@ func C09(p *core.Program, r *core.Report) {
 		r.Check(okPart, "partition/"+fname(frag)+"/contiguous", "the payload slices are [i : min(i+k, len)] and the loop advances i by the same k, so offsets partition the payload without gap or overlap", p.Pos(sl.Pos()), detail, "slice bounds / loop step changed: "+detail)
 		// the offset handed to fragmentPrimaryBlock is based on the same i
 		for _, c := range core.CallsTo(frag, bp7+".fragmentPrimaryBlock") {
-			okI := core.DependsOn(core.CallArgs(c)[1], func(v ssa.Value) bool { return v == ssa.Value(phi) })
+			okI := core.DependsOn(core.Arg(c, 1), func(v ssa.Value) bool { return v == ssa.Value(phi) })
 			r.Check(okI, "partition/"+fname(frag)+"/offset-is-slice-start", "the fragment offset recorded in the primary block is the start of the slice it carries", p.Pos(c.Pos()), "", "offset argument does not depend on the loop position i")
 		}
 	}
@@ -460,7 +460,7 @@ func checkOneSortedSlice(p *core.Program, r *core.Report, rf, prep *ssa.Function
 	// the slice that was sorted and checked is the one whose first element supplies the blocks
 	var checked ssa.Value
 	for _, c := range core.CallsTo(rf, bp7+".prepareReassembly") {
-		checked = core.CallArgs(c)[0]
+		checked = core.Arg(c, 0)
 	}
 	okSame := checked != nil
 	detailSame := ""
@@ -472,7 +472,7 @@ func checkOneSortedSlice(p *core.Program, r *core.Report, rf, prep *ssa.Function
 				detailSame = "element access at " + p.Pos(x.Pos()) + " reads another slice than the one prepareReassembly sorted"
 			}
 		case *ssa.Call:
-			if core.NameIs(core.CalleeName(x), bp7+".mergeFragmentPayload") && core.CallArgs(x)[0] != checked {
+			if core.NameIs(core.CalleeName(x), bp7+".mergeFragmentPayload") && core.Arg(x, 0) != checked {
 				okSame = false
 				detailSame = "mergeFragmentPayload gets another slice than the one prepareReassembly sorted"
 			}
@@ -482,7 +482,7 @@ func checkOneSortedSlice(p *core.Program, r *core.Report, rf, prep *ssa.Function
 	// prepareReassembly sorts its argument by FragmentOffset, in place
 	okSort := false
 	for _, c := range core.CallsTo(prep, "sort.Slice") {
-		arg := core.Strip(core.CallArgs(c)[0])
+		arg := core.Strip(core.Arg(c, 0))
 		isParam := arg == ssa.Value(prep.Params[0])
 		if ld, ok := arg.(*ssa.UnOp); ok {
 			if a, ok := ld.X.(*ssa.Alloc); ok && allocHoldsParam(a, prep.Params[0]) {
@@ -511,8 +511,8 @@ func storeSideC10(p *core.Program, r *core.Report) {
 	bpp := p.Func(storagePkg, "", "bundlePartPath")
 	okName := false
 	for _, c := range core.CallsTo(bpp, "crypto/sha256.Sum256") {
-		okName = len(bpp.Params) >= 3 && core.DependsOn(core.CallArgs(c)[0], func(v ssa.Value) bool { return v == ssa.Value(bpp.Params[1]) }) &&
-			core.DependsOn(core.CallArgs(c)[0], func(v ssa.Value) bool {
+		okName = len(bpp.Params) >= 3 && core.DependsOn(core.Arg(c, 0), func(v ssa.Value) bool { return v == ssa.Value(bpp.Params[1]) }) &&
+			core.DependsOn(core.Arg(c, 0), func(v ssa.Value) bool {
 				cc, ok := v.(*ssa.Call)
 				return ok && core.NameIs(core.CalleeName(cc), bp7+".BundleID.String")
 			})
@@ -525,7 +525,7 @@ func storeSideC10(p *core.Program, r *core.Report) {
 	for _, cs := range allCallSites(p, storagePkg+".bundlePartPath") {
 		nName++
 		fn := cs.Parent()
-		arg := core.CallArgs(cs)[1]
+		arg := core.Arg(cs, 1)
 		var stores []*ssa.Store
 		core.EachInstr(fn, func(in ssa.Instruction) {
 			if st, ok := in.(*ssa.Store); ok && core.IsField(st.Addr, storagePkg, "BundlePart", "PayloadLength") {
@@ -732,7 +732,7 @@ func enumerateFragmentFlag(p *core.Program, frag *ssa.Function) (bool, bool) {
 			return 1, true
 		}
 		if core.NameIs(n, bp7+".BundleControlFlags.Has") {
-			if k, ok := core.ConstInt(core.CallArgs(c)[0]); ok && k == isFrag {
+			if k, ok := core.ConstInt(core.Arg(c, 0)); ok && k == isFrag {
 				return 1, true
 			}
 		}
